@@ -483,8 +483,11 @@ pub fn case_sched(bytes: &[u8], sched_bytes: &[u8], ctx: &mut Ctx) -> Result<(),
         })
         .collect();
     let observer: Vec<bool> = (0..1 + src.below(4)).map(|_| src.byte() < 170).collect();
+    // samples recorded before the threads start: 61-63 of them leave a storage block that the racing recorders fill
+    // to its last slot while the observer drains it
+    let prefill: u32 = *src.pick(&[0u32, 0, 61, 62, 63, 64]);
     let case = SchedCase { buckets, recorders, observer };
-    ctx.case(&(&case, sched_bytes));
+    ctx.case(&(&case, prefill, sched_bytes));
     let mut b = PrometheusBuilder::new();
     if case.buckets {
         b = b.set_buckets(&[10.0, 100.0]).unwrap();
@@ -501,6 +504,12 @@ pub fn case_sched(bytes: &[u8], sched_bytes: &[u8], ctx: &mut Ctx) -> Result<(),
     let events: Mutex<Vec<Ev>> = Mutex::new(vec![]);
     let bad: Mutex<Option<Fail>> = Mutex::new(None);
     let key = Key::from_name("h");
+    for t in 0..prefill {
+        rec.register_histogram(&key, &META).record((1000 + t) as f64);
+    }
+    if prefill >= 61 {
+        ctx.class("block-almost-full-before-the-race");
+    }
     let mut bodies: Vec<Box<dyn FnOnce() + Send + '_>> = Vec::new();
     for ops in &case.recorders {
         let (rec, events, key) = (&rec, &events, &key);
@@ -553,7 +562,7 @@ pub fn case_sched(bytes: &[u8], sched_bytes: &[u8], ctx: &mut Ctx) -> Result<(),
     if let Some(e) = bad.into_inner().unwrap() {
         return Err(e);
     }
-    let total: u64 = case.recorders.iter().map(|r| r.len() as u64).sum();
+    let total: u64 = case.recorders.iter().map(|r| r.len() as u64).sum::<u64>() + prefill as u64;
     let final_text = handle.render();
     let final_count = count_of(&final_text)?.unwrap_or(0);
     ensure!(final_count == total, "histogram-count-wrong", "{} samples recorded but the quiescent render shows _count {} ; trace {:?}", total, final_count, out.trace);
@@ -562,14 +571,14 @@ pub fn case_sched(bytes: &[u8], sched_bytes: &[u8], ctx: &mut Ctx) -> Result<(),
         let lines = parse_prometheus(&final_text).unwrap();
         let fams = prom_families(&lines).unwrap();
         let sum = fams.iter().find(|f| f.name == "h").and_then(|f| f.samples.iter().find(|s| s.0 == "h_sum").map(|s| s.2)).unwrap_or(-1.0);
-        let want: f64 = case.recorders.iter().flatten().map(|(_, t)| *t as f64).sum();
+        let want: f64 = case.recorders.iter().flatten().map(|(_, t)| *t as f64).sum::<f64>() + (0..prefill).map(|t| (1000 + t) as f64).sum::<f64>();
         ensure!(sum == want, "histogram-sum-wrong", "sum of recorded tags {} but _sum {}", want, sum);
     }
     // intermediate renders: completed-before-start <= count <= started-before-end, and monotone
     let evs = events.into_inner().unwrap();
-    let mut started = 0u64;
-    let mut completed = 0u64;
-    let mut completed_at_obs_start = 0u64;
+    let mut started = prefill as u64;
+    let mut completed = prefill as u64;
+    let mut completed_at_obs_start = prefill as u64;
     let mut last_count = 0u64;
     let mut overlap = false;
     let mut in_obs = false;
